@@ -11,7 +11,7 @@ LEVEL = 'other'
 
 CATS = ['sources', 'outputs', 'attachments', 'metadata', 'id', 'details']
 FLAG = {'sources': 's', 'outputs': 'o', 'attachments': 'a', 'metadata': 'm', 'id': 'i', 'details': 'd'}
-KNOWN = {'mapping-atomic-id': 'C14-mapping-id'}
+KNOWN = {'mapping-atomic-id': 'C14-mapping-id', 'nonempty:outputs-misalign': 'C14-ignored-outputs-misalign'}
 
 
 def category(starpath):
@@ -149,7 +149,19 @@ def check_pair(a, b, ignored, form):
         except Exception as exc:
             out.append(('patch-crash', 'patch_notebook raised %s: %s (ignored=%s via %s)' % (type(exc).__name__, exc, sorted(ignored), form)))
         if 'sources' not in ignored and nbspace.canon(mask(nbspace.to_plain(a), ignored)) == nbspace.canon(mask(nbspace.to_plain(b), ignored)) and pd:
-            out.append(('nonempty', 'notebooks differ only in ignored categories %s but the diff is not empty: %r' % (sorted(ignored), pd[:1])))
+            kind = 'nonempty'
+            cells_diff = [e for e in pd if e.get('key') == 'cells' and e['op'] == 'patch']
+            if 'outputs' in ignored and len(a['cells']) == len(b['cells']) and len(pd) == 1 and cells_diff and \
+                    any(e['op'] in ('addrange', 'removerange') for e in cells_diff[0]['diff']):
+                # cause analysis: with the outputs of B made equal to A's (cell by cell) the diff is empty, i.e. the only thing that keeps
+                # the cells from being aligned is the difference in their ignored outputs (the alignment predicates compare outputs)
+                b_eq = copy.deepcopy(b)
+                for ca, cb in zip(a['cells'], b_eq['cells']):
+                    if ca['cell_type'] == 'code' and cb['cell_type'] == 'code':
+                        cb['outputs'] = copy.deepcopy(ca['outputs'])
+                if not nbd.diff_notebooks(a, b_eq):
+                    kind = 'nonempty:outputs-misalign'
+            out.append((kind, 'notebooks differ only in ignored categories %s but the diff is not empty: %r' % (sorted(ignored), pd[:1])))
     finally:
         nbd.reset_notebook_differ()
     return out
